@@ -356,8 +356,10 @@ DoLen(S) == Res(S, RLen(S.len))
 
 \* PersistentStorageImpl::update_value (persistence/mod.rs:84-140) parses the
 \* value written to $SYS/clients/<id>/graveGoods|lastWill, whatever the backend
-GGParses(v) == v \in DOMAIN Meaning /\ Meaning[v].lw = <<>>
-LWParses(v) == v \in DOMAIN Meaning /\ Meaning[v].gg = <<>>
+\* (parsed as Option<Vec<..>>: JSON null and the empty array are "no registration")
+NoRegistration == {"j:null", "j:[]"}
+GGParses(v) == v \in NoRegistration \/ (v \in DOMAIN Meaning /\ Meaning[v].lw = <<>>)
+LWParses(v) == v \in NoRegistration \/ (v \in DOMAIN Meaning /\ Meaning[v].gg = <<>>)
 RegistrationUnparsable(path, v) ==
   /\ Len(path) = 4 /\ path[1] = SYS /\ path[2] = CLIENTS
   /\ \/ path[4] = GG /\ ~GGParses(v)
@@ -608,19 +610,21 @@ DoDisconnected(S, c) ==
       lw == LWOf(r2.s, c)
       S3 == [r2.s EXCEPT !.clients = @ \ {c}]
       r4 == ThenKeep(r2, DoSet(S3, ClientsKey, NumTok(Cardinality(S3.clients)), INT, TRUE))
-      \* do_unsubscribe for every subscription of c; the session drops its
-      \* receivers, which also ends its ls-subscriptions (lazily in the code)
+      \* do_unsubscribe for every subscription of c.  Its ls-subscriptions are not touched by
+      \* `disconnected`: they end when the session drops its receivers, i.e. they are still
+      \* notified of everything the remaining sub-steps change
       S5 == [r4.s EXCEPT !.subs = {s \in @ : s.id[1] # c},
-                         !.subIds = RestrictF(@, {x \in DOMAIN @ : x[1] # c}),
-                         !.lsSubs = {s \in @ : s.id[1] # c},
-                         !.lsIds = RestrictF(@, {x \in DOMAIN @ : x[1] # c})]
+                         !.subIds = RestrictF(@, {x \in DOMAIN @ : x[1] # c})]
       r6 == ThenKeep([r4 EXCEPT !.s = S5], DoPDelete(S5, <<SYS, CLIENTS, c, MULTI>>, INT))
       r7 == BurySeq(r6, gg, c)
       r8 == WillSeq(r7, lw, c)
+      \* ... and are gone afterwards (lazily in the code: at the next failing send)
+      S9 == [r8.s EXCEPT !.lsSubs = {s \in @ : s.id[1] # c},
+                         !.lsIds = RestrictF(@, {x \in DOMAIN @ : x[1] # c})]
   IN IF r2.s.down THEN [r2 EXCEPT !.rep = Down]
      \* the client count is updated while the departing client's subscriptions still exist: a
      \* subscription of its own that matches $SYS/clients is still sent that one event
-     ELSE [r8 EXCEPT !.rep = IF r8.s.down THEN Down ELSE Ok]
+     ELSE [r8 EXCEPT !.s = S9, !.rep = IF r8.s.down THEN Down ELSE Ok]
 
 (***************************************************************************)
 (* Restart with the JSON persistence: flush (Store::export strips $SYS,    *)
